@@ -194,6 +194,19 @@ def escape_cases(rnd, tier):
     return out
 
 
+NUM_ALPHA = [".", "1", "0", "e", "E", "+", "-", "x", "b", "u", "l", "f", " ", "(", ")"]
+
+
+def number_shapes(tier):
+    """every string over an alphabet of numeric-literal characters up to length 4: malformed numbers must be rejected, not dropped"""
+    alpha = NUM_ALPHA if tier == "thorough" else [".", "1", "0", "e", "+", "-", "x", "b", "u", " ", "("]
+    out = []
+    for k in range(1, 5):
+        for t in itertools.product(alpha, repeat=k):
+            out.append(("numshape", "".join(t).encode("latin-1")))
+    return out
+
+
 TRIVIA_PARTS = [b" ", b"\t", b"\n", b"\r\n", b"/* c */", b"/* \n */", b"/**/", b"/*/", b"// c\n", b"//\r\n", b"# a\n", b"#!x\n", b"//", b"#", b"/* open", b"\r", b"/", b";", b"x"]
 
 
@@ -234,6 +247,7 @@ def gen_cases(tier, seed):
     cases += [(k, b, None) for k, b in byte_cases()]
     cases += [(k, b, None) for k, b in escape_cases(rnd, tier)]
     cases += [(k, b, None) for k, b in trivia_cases(rnd, 3000 if tier == "thorough" else 300)]
+    cases += [(k, b, None) for k, b in number_shapes(tier)]
     pool = [b for _, b in files] + [s.encode("latin-1") for s in SHORT]
     for _ in range(60000 if tier == "thorough" else 2500):
         cases.append(("mutation", mutate(rnd.choice(pool), rnd), None))
